@@ -40,8 +40,9 @@ class HwmLoop:
         return [z3.And(t >= 1, z3.ToReal(t) <= self.n)] + \
                [z3.Implies(z3.And(j >= 0, j < t), z3.Select(hwm.arr, j) == RUNMAX(j)) for j in pts]
 
-    def havoc(self, env, names):
+    def havoc(self, env, names, state=()):
         c, G = ctx(), self.G
+        heap.check_state(LOOP, state, ('hwm',))
         c.assume(runmax_def(z3.IntVal(0)))
         c.assume(runmax_def(G.j0))
         if not bool(SymBool(self.lo == 1)):
